@@ -105,6 +105,9 @@ def enrich(mdib):
     return added
 
 
+_XSD = None
+
+
 class World:
     def __init__(self, provider: lb.Provider, rng):
         self.p = provider
@@ -240,24 +243,36 @@ class World:
         """Type-directed part of the mutators: one of the object's own attribute properties of a plain type (integer, boolean,
         timestamp, decimal) gets a value, or - if it is optional - is cleared. Every class contributes the attributes only it
         has (ClockState.LastSet, BatteryState capacities, ...), not just the members all classes of a kind share."""
-        from sdc11073.xml_types import xml_structure as xs
-        plain = (xs.IntegerAttributeProperty, xs.BooleanAttributeProperty, xs.TimestampAttributeProperty, xs.DecimalAttributeProperty)
-        props = [(name, p) for name, p in obj.sorted_container_properties()
-                 if name not in self._TYPED_SKIP and isinstance(p, plain)
-                 and not isinstance(p, (xs.VersionCounterAttributeProperty, xs.CurrentTimestampAttributeProperty, xs.QualityIndicatorAttributeProperty))]
-        if not props:
+        attrs = self.typed_attrs(obj)
+        if not attrs:
             return
-        name, p = props[(n // 3) % len(props)]
-        if n % 7 == 6 and getattr(p, '_is_optional', False):
+        name, kind, required = attrs[(n // 3) % len(attrs)]
+        if n % 7 == 6 and not required:
             setattr(obj, name, None)
-        elif isinstance(p, xs.BooleanAttributeProperty):
+        elif kind == 'b':
             setattr(obj, name, n % 2 == 0)
-        elif isinstance(p, xs.IntegerAttributeProperty):
+        elif kind == 'i':
             setattr(obj, name, n % 5000)
-        elif isinstance(p, xs.TimestampAttributeProperty):
+        elif kind == 't':
             setattr(obj, name, float(1500000000 + n))    # (seconds as float, the type the reader produces)
         else:
             setattr(obj, name, Decimal(n % 1000))
+
+    def typed_attrs(self, obj):
+        # which attributes a class has is taken from the bundled XML schema, not from the class's own property list (a property
+        # the class forgot to list would otherwise never be written)
+        global _XSD
+        if _XSD is None:
+            import xsdtable
+            _XSD = xsdtable.XsdTable()
+        xsd, pmns = '{http://www.w3.org/2001/XMLSchema}', '{http://standards.ieee.org/downloads/11073/11073-10207-2017/participant}'
+        kinds = {xsd + 'boolean': 'b', xsd + 'int': 'i', xsd + 'unsignedInt': 'i', xsd + 'long': 'i', xsd + 'unsignedLong': 'i',
+                 xsd + 'decimal': 'd', pmns + 'Timestamp': 't'}
+        tname = f'{{{obj.NODETYPE.namespace}}}{obj.NODETYPE.localname}'
+        if tname not in _XSD.types:
+            return []
+        return [(a[0], kinds[a[1]], a[2]) for a in _XSD.flatten(tname)[1]
+                if a[1] in kinds and a[0] not in self._TYPED_SKIP and hasattr(type(obj), a[0])]
 
     def mutate_state(self, st, n):
         self.typed_extra(st, n)
@@ -405,8 +420,30 @@ class World:
             if st is not None:
                 sc('S', [['get', h], ['setBody', h, n]], kind=kind_of(st))
                 sc('S', [['write', h, n + 1, False]], kind=kind_of(st))
+                # every plain attribute the schema gives this state class is written once
+                na = len(self.typed_attrs(st))
+                for k in range(na):
+                    nk = 3 * k + 3 * na * r.randrange(40)
+                    sc('S', [['get', h], ['setBody', h, nk + (1 if nk % 7 == 6 else 0)]], kind=kind_of(st))
             sc('D', [['getDescr', h], ['setDescrBody', h, n + 2]] + ([] if is_ctx else [['getState', h], ['setStateBody', h, n + 3]]))
+            nd = len(self.typed_attrs(m.descriptions.handle.get_one(h)))
+            for k in range(nd):
+                nk = 3 * k + 3 * nd * r.randrange(40)
+                sc('D', [['getDescr', h], ['setDescrBody', h, nk + (1 if nk % 7 == 6 else 0)]])
             sc('D', [['writeEntity', h, n + 4, 'add' if is_ctx else 'keep', False]], remember=[h])
+            if is_ctx:
+                # the life of one context state handle: created, updated through both interfaces, deleted, and brought back
+                # through every route that creates a state
+                c = f'sw_{h}'
+                sc('C', [['mk', h, c, True, False, n]])
+                sc('C', [['writeUpd', c, n + 1, False]])
+                sc('C', [['get', c], ['setBody', c, n + 2]])
+                sc('C', [['del', c]])
+                sc('C', [['writeNew', h, c, n + 3]])
+                sc('C', [['del', c]])
+                sc('C', [['mk', h, c, True, True, n + 4]])
+                sc('C', [['del', c]])
+                sc('C', [['addState', h, c, n + 5]])
             if leaf:
                 sc('D', [['removeDescr', h]])
                 sc('D', [['addDescr', h, None, True]])
